@@ -18,6 +18,21 @@ class Facts:
                 pb = Body(p, self)
                 self.bodies[pb.key] = pb
         self.fns = {f['key']: f for f in d['fns']}
+        # std's blanket impls `T: Into<U>` / `T: TryInto<U>` are `U::from(t)` / `U::try_from(t)`: follow them into the crate
+        BLANKET = {'<T as core::convert::Into<U>>::into': ('core::convert::From', 'from'),
+                   '<T as core::convert::TryInto<U>>::try_into': ('core::convert::TryFrom', 'try_from')}
+        for body in list(self.bodies.values()):
+            for blk in body.blocks:
+                t = blk['term']
+                if t['k'] == 'call' and t.get('callee') in BLANKET and len(t.get('gargs') or []) == 2:
+                    tr, name = BLANKET[t['callee']]
+                    key = '<%s as %s<%s>>::%s' % (t['gargs'][1], tr, t['gargs'][0], name)
+                    if key in self.bodies:
+                        t['callee'] = key
+                        t['decl'] = '%s::%s' % (tr, name)
+                        t['resolved'] = True
+                        t['gargs'] = []
+                        t['callee_crate'] = self.crate
         self.consts = {c['path']: c for c in d['consts']}
         self.adts = {a['path']: a for a in d['adts']}
         self.impls = d['impls']
@@ -40,6 +55,11 @@ class Facts:
 
     def enum_discr(self, adt_path, name):
         a = self.adts.get(adt_path)
+        if not a or a.get('kind') != 'enum':
+            # std enums are not in the crate's ADT table
+            if adt_path in ('core::option::Option', 'core::result::Result'):
+                return {'None': 0, 'Some': 1, 'Ok': 0, 'Err': 1}.get(name)
+            return None
         for v in a['variants']:
             if v['name'] == name:
                 return int(v['discr'])
